@@ -65,6 +65,28 @@ class Report:
         self.obls[o.id] = o
         return o
 
+    def locate_functions(self):
+        """names of the real functions under contract -> `name (file:line)` in /repo at the time of the run"""
+        import glob
+        index = {}
+        for f in glob.glob(os.path.join(REPO, "src/**/*.rs"), recursive=True):
+            try:
+                for n, ln in enumerate(open(f), 1):
+                    m = re.match(r"\s*(?:pub(?:\([^)]*\))?\s+)?fn\s+(\w+)\s*[(<]", ln)
+                    if m and not m.group(1).startswith("test_"):
+                        index.setdefault(m.group(1), "%s:%d" % (os.path.relpath(f, REPO), n))
+            except Exception:
+                pass
+        out = []
+        for item in self.functions:
+            names = re.findall(r"(?:cpu\.|::|\b)([a-z_][a-z0-9_]*)\s*(?=\(|,|;|$|\s)", item)
+            locs = []
+            for nm in names:
+                if nm in index and index[nm] not in locs:
+                    locs.append("%s@%s" % (nm, index[nm]))
+            out.append(item + ("  [" + ", ".join(locs[:6]) + "]" if locs else ""))
+        return out
+
     def finish(self, witness_finder=None):
         known = [k for k in load_known() if k.get("property") == self.prop and k.get("status") == "known"]
         known_ids = {k["obligation"]: k for k in known}
@@ -113,7 +135,7 @@ class Report:
                 "undetermined": len(undet),
                 "checker_cmd": " ; ".join(self.cmds) if self.cmds else "n/a",
                 "trusted_base": self.trusted,
-                "functions_under_contract": self.functions,
+                "functions_under_contract": self.locate_functions(),
                 "samples": samples,
                 "explanation": explanation,
                 "known_findings": [k for (_, k) in known_hit],
